@@ -1,9 +1,9 @@
 (* C05 oracle. One request per line, one reply line.
      reset | init ; <disk> ; <rf>      -> ok   (state every later request starts from)
-     crash  W k ; op;op;...            -> <disk> # consistent ready covers ops_ok
-     fault  W k ; op;...  [; ? S ...]  -> <disk> # mem_covers stores(mem) stores(reinit) ops_ok
+     crash  W k ; op;op;...            -> <disk> # consistent ready covers ops_env
+     fault  W k ; op;...  [; ? S ...]  -> <disk> # mem_covers stores(mem) stores(reinit) ops_env
      counts W ; op;...                 -> n1 n2 ...
-     eval   W ; <disk>                 -> consistent ready covers windows_ok
+     eval   W ; <disk>                 -> consistent ready covers windows_ok cont
    ops:  S num id parent keys | R | P keep_hist e | L h | N | G | U      (numbers in hex, keys k1_k2 or -)
    disk: h=..|st=..|l1=..|snap=..|win=..|F=f0/f1/.../f7  (see show_disk) *)
 
@@ -115,7 +115,7 @@ let () =
             let ops = List.map parse_op rest in
             let d = crash_disk w ops k st0 in
             print_endline (show_disk d ^ " # " ^ String.concat " "
-              [b2s (consistent w d); b2s (recover_ready w d); b2s (index_covers w d); b2s (ops_ok w ops st0)])
+              [b2s (consistent w d); b2s (recover_ready w d); b2s (index_covers w d); b2s (ops_env w ops st0)])
         | ["fault"; w; k] ->
             let w = nh w and k = nat_of_int (int_of_string k) in
             let isq x = String.length x > 0 && x.[0] = '?' in
@@ -128,7 +128,7 @@ let () =
                   | Store b -> b2s (stores w d m b) ^ " " ^ b2s (stores w d (reinit w d) b)
                   | _ -> "- -")
               | [] -> "- -" in
-            print_endline (show_disk d ^ " # " ^ b2s (mem_covers w d m) ^ " " ^ st ^ " " ^ b2s (ops_ok w ops st0)
+            print_endline (show_disk d ^ " # " ^ b2s (mem_covers w d m) ^ " " ^ st ^ " " ^ b2s (ops_env w ops st0)
                            ^ " # " ^ show_rf m)
         | ["counts"; w] ->
             let ops = List.map parse_op rest in
@@ -138,7 +138,8 @@ let () =
             let d = parse_disk (String.concat ";" rest) in
             print_endline (String.concat " "
               [b2s (consistent w d); b2s (recover_ready w d); b2s (index_covers w d);
-               b2s (match d.d_height with Some h -> windows_ok w h d | None -> d.d_windows = [])])
+               b2s (match d.d_height with Some h -> windows_ok w h d | None -> d.d_windows = []);
+               b2s (cont d)])
         | _ -> print_endline "ERR bad request")
      | [] -> print_endline "ERR empty");
     flush stdout)
